@@ -68,7 +68,7 @@ class InMemoryTapeCassette(TapeCassette):
 
             result.append(recording.id)
 
-        if limit:
+        if limit is not None:
             result = result[:limit]
 
         if random_results:
